@@ -196,7 +196,9 @@ fn gen_supplied(r: &mut Rng, format: &str, thorough: bool) -> Supplied {
         }
         actions.push(a);
     }
-    assertions.push(("c2pa.actions".to_string(), json!({"actions": actions}), "Cbor"));
+    // the typed actions path is taken for every label starting with `c2pa.actions` and always writes `c2pa.actions.v2`
+    let actions_label = if r.chance(1, 5) { "c2pa.actions.v2" } else { "c2pa.actions" };
+    assertions.push((actions_label.to_string(), json!({"actions": actions}), "Cbor"));
     let n = if thorough { r.below(7) } else { r.below(5) } as usize;
     for _ in 0..n {
         match r.below(9) {
@@ -276,11 +278,36 @@ struct Signed {
     manifest: Vec<u8>,
 }
 
-fn sign(s: &Supplied, src: &[u8], signer_alg: &str, settings: &str) -> c2pa::Result<Signed> {
+/// where the manifest store goes: embedded, sidecar (`no_embed`), remote (`no_embed` + URL,
+/// XMP reference written), embedded + remote URL
+#[derive(Clone, Copy, Debug, PartialEq)]
+enum Mode {
+    Embed,
+    Sidecar,
+    Remote,
+    EmbedRemote,
+}
+
+const REMOTE_URL: &str = "https://verif.invalid/manifests/c03.c2pa";
+
+fn sign(s: &Supplied, src: &[u8], signer_alg: &str, settings: &str, mode: Mode) -> c2pa::Result<Signed> {
     let ctx = Context::new().with_settings(settings)?;
     let mut b = Builder::from_context(ctx).with_definition(definition_json(s).to_string().as_str())?;
     if let Some((_, bytes)) = &s.thumbnail {
         b.add_resource("verif-thumb.jpg", Cursor::new(bytes.clone()))?;
+    }
+    match mode {
+        Mode::Embed => {}
+        Mode::Sidecar => {
+            b.set_no_embed(true);
+        }
+        Mode::Remote => {
+            b.set_no_embed(true);
+            b.set_remote_url(REMOTE_URL);
+        }
+        Mode::EmbedRemote => {
+            b.set_remote_url(REMOTE_URL);
+        }
     }
     let mut out = Cursor::new(Vec::new());
     let manifest = if signer_alg == "ephemeral" {
@@ -298,6 +325,78 @@ fn read(fmt: &str, data: &[u8], settings: &str) -> Result<(String, Value, Reader
     let r = Reader::from_context(ctx).with_stream(fmt, Cursor::new(data.to_vec())).map_err(|e| format!("{e:?}"))?;
     let v: Value = serde_json::from_str(&r.json()).map_err(|e| e.to_string())?;
     Ok((format!("{:?}", r.validation_state()), v, r))
+}
+
+/// read a sidecar / remote manifest store against its asset
+fn read_detached(fmt: &str, manifest: &[u8], data: &[u8], settings: &str) -> Result<(String, Value, Reader), String> {
+    let ctx = Context::new().with_settings(settings).map_err(|e| format!("{e:?}"))?;
+    let r = Reader::from_context(ctx).with_manifest_data_and_stream(manifest, fmt, Cursor::new(data.to_vec())).map_err(|e| format!("{e:?}"))?;
+    let v: Value = serde_json::from_str(&r.json()).map_err(|e| e.to_string())?;
+    Ok((format!("{:?}", r.validation_state()), v, r))
+}
+
+/// `label#instance` of a stored label such as `c2pa.ingredient.v3__1`
+fn label_inst(l: &str) -> String {
+    match l.rsplit_once("__") {
+        Some((base, n)) if n.parse::<u64>().is_ok() => format!("{base}#{n}"),
+        _ => format!("{l}#0"),
+    }
+}
+
+/// implementation reply of the `report` request
+fn report_reply(m: &Value) -> String {
+    let reported: Vec<String> = m
+        .get("assertions")
+        .and_then(|x| x.as_array())
+        .map(|a| a.iter().map(|x| format!("{}#{}", x.get("label").and_then(|l| l.as_str()).unwrap_or("?"), x.get("instance").and_then(|i| i.as_u64()).unwrap_or(0))).collect())
+        .unwrap_or_default();
+    let ing: Vec<String> = m
+        .get("ingredients")
+        .and_then(|x| x.as_array())
+        .map(|a| a.iter().map(|x| label_inst(x.get("label").and_then(|l| l.as_str()).unwrap_or("?"))).collect())
+        .unwrap_or_default();
+    let thumb = m
+        .get("thumbnail")
+        .and_then(|t| t.get("identifier"))
+        .and_then(|x| x.as_str())
+        .map(|id| label_inst(id.rsplit('/').next().unwrap_or("?")))
+        .unwrap_or("-".into());
+    format!(
+        "{} {} ing={} thumb={}",
+        if m.get("format").is_some() { "fmt" } else { "nofmt" },
+        if reported.is_empty() { "-".to_string() } else { reported.join(",") },
+        if ing.is_empty() { "-".to_string() } else { ing.join(",") },
+        thumb
+    )
+}
+
+fn report_req(s: &Supplied) -> String {
+    let labels: Vec<&str> = s.assertions.iter().map(|(l, _, _)| l.as_str()).collect();
+    format!(
+        "C03 report v={} labels={} ing={} thumb={}",
+        s.claim_version,
+        if labels.is_empty() { "-".to_string() } else { labels.join(",") },
+        s.ingredients.len(),
+        if s.thumbnail.is_some() { 1 } else { 0 }
+    )
+}
+
+/// `<state> A=<success>;<informational>;<failure> D=-` of the active manifest (the format of
+/// the C04 model's `resultsStr`)
+fn codes_reply(state: &str, report: &Value) -> String {
+    let am = &report["validation_results"]["activeManifest"];
+    let list = |k: &str| -> String {
+        am.get(k).and_then(|x| x.as_array()).map(|a| a.iter().filter_map(|c| c.get("code").and_then(|x| x.as_str())).collect::<Vec<_>>().join(",")).unwrap_or_default()
+    };
+    // ingredient deltas that hold no failure code (unsigned ingredients log the informational
+    // `ingredient.unknownProvenance`) do not influence the state and are not modelled
+    let failing = report["validation_results"]
+        .get("ingredientDeltas")
+        .and_then(|x| x.as_array())
+        .map(|a| a.iter().filter(|d| d["validationDeltas"]["failure"].as_array().map(|f| !f.is_empty()).unwrap_or(false)).count())
+        .unwrap_or(0);
+    let deltas = if failing == 0 { "-".to_string() } else { format!("{failing}-failing-deltas") };
+    format!("{} A={};{};{} D={deltas}", state.to_lowercase(), list("success"), list("informational"), list("failure"))
 }
 
 /// The JSON report renders byte strings as base64 text: an object member that is a non-empty
@@ -452,7 +551,7 @@ fn compare_report(s: &Supplied, report: &Value, reader: &Reader) -> Vec<(&'stati
 
 /// documented re-labelling: the typed actions assertion is written with its current version
 fn norm_label(l: &str) -> &str {
-    if l == "c2pa.actions" {
+    if l.starts_with("c2pa.actions") {
         "c2pa.actions.v2"
     } else {
         l
@@ -514,7 +613,7 @@ fn main() {
         let src = std::fs::read(fixtures().join(file)).expect("src");
         let s = gen_supplied(&mut r, fmt, true);
         println!("{}", serde_json::to_string_pretty(&definition_json(&s)).unwrap().chars().take(6000).collect::<String>());
-        match sign(&s, &src, "es256", &trust_settings()) {
+        match sign(&s, &src, "es256", &trust_settings(), Mode::Embed) {
             Ok(signed) => {
                 let (st, rep, reader) = read(fmt, &signed.asset, &trust_settings()).expect("read");
                 println!("state {st}\n{}", serde_json::to_string_pretty(&rep).unwrap().chars().take(12000).collect::<String>());
@@ -537,6 +636,9 @@ struct Case<'a> {
     signer: &'a str,
     trusted: bool,
     box_hash: bool,
+    mode: Mode,
+    /// also read a tampered copy back
+    tamper: bool,
 }
 
 fn settings_for(c: &Case) -> String {
@@ -557,23 +659,29 @@ fn locs_str(l: &[(usize, usize, u8)]) -> String {
 
 fn one_case(run: &mut Run, c: &Case, tag: &str) {
     let settings = settings_for(c);
-    let key = format!("{tag} fmt={} signer={} v={} alg={:?} box={} trust={} n_asn={} n_ing={} thumb={}", c.fmt, c.signer, c.supplied.claim_version, c.supplied.hash_alg, c.box_hash, c.trusted, c.supplied.assertions.len(), c.supplied.ingredients.len(), c.supplied.thumbnail.is_some());
+    let key = format!("{tag} fmt={} signer={} v={} alg={:?} box={} trust={} mode={:?} n_asn={} n_ing={} thumb={}", c.fmt, c.signer, c.supplied.claim_version, c.supplied.hash_alg, c.box_hash, c.trusted, c.mode, c.supplied.assertions.len(), c.supplied.ingredients.len(), c.supplied.thumbnail.is_some());
     run.count(&format!("format:{}", c.fmt));
     run.count(&format!("signer:{}", c.signer));
     run.count(&format!("hash_alg:{}", c.supplied.hash_alg.unwrap_or("default")));
     run.count(&format!("claim_version:{}", c.supplied.claim_version));
+    run.count(&format!("mode:{:?}", c.mode));
     run.count(if c.box_hash { "binding:box-hash(compressed)" } else if is_bmff(c.fmt) { "binding:bmff-hash" } else { "binding:data-hash" });
     run.count(&format!("assertions:{}", c.supplied.assertions.len()));
     run.count(&format!("ingredients:{}", c.supplied.ingredients.len()));
-    // the report-model request: labels in supplied order
-    let labels: Vec<&str> = c.supplied.assertions.iter().map(|(l, _, _)| l.as_str()).collect();
-    let req = format!("C03 report v={} labels={}", c.supplied.claim_version, if labels.is_empty() { "-".to_string() } else { labels.join(",") });
+    let detached = matches!(c.mode, Mode::Sidecar | Mode::Remote);
+    // the report-model request: labels in supplied order, ingredient count, thumbnail
+    let req = report_req(&c.supplied);
     let s2 = c.supplied.clone();
-    let (src2, signer2, settings2) = (c.src.to_vec(), c.signer.to_string(), settings.clone());
-    let signed = match guarded(move || sign(&s2, &src2, &signer2, &settings2)) {
+    let (src2, signer2, settings2, mode2) = (c.src.to_vec(), c.signer.to_string(), settings.clone(), c.mode);
+    let signed = match guarded(move || sign(&s2, &src2, &signer2, &settings2, mode2)) {
         Err(p) => {
             let idx = run.case(req, "panic".into());
             run.fail(idx, "panic", format!("{key}: panic while signing: {p}"));
+            return;
+        }
+        Ok(Err(c2pa::Error::XmpNotSupported)) if c.mode != Mode::Embed && c.mode != Mode::Sidecar => {
+            // the format has no remote-reference writer: not a supported combination
+            run.count(&format!("remote-ref-unsupported:{}", c.fmt));
             return;
         }
         Ok(Err(e)) => {
@@ -584,8 +692,8 @@ fn one_case(run: &mut Run, c: &Case, tag: &str) {
         }
         Ok(Ok(s)) => s,
     };
-    let (fmt2, asset2, settings2) = (c.fmt.to_string(), signed.asset.clone(), settings.clone());
-    let rd = guarded(move || read(&fmt2, &asset2, &settings2));
+    let (fmt2, asset2, manifest2, settings2) = (c.fmt.to_string(), signed.asset.clone(), signed.manifest.clone(), settings.clone());
+    let rd = guarded(move || if detached { read_detached(&fmt2, &manifest2, &asset2, &settings2) } else { read(&fmt2, &asset2, &settings2) });
     let (state, report, reader) = match rd {
         Err(p) => {
             let idx = run.case(req, "panic".into());
@@ -602,11 +710,7 @@ fn one_case(run: &mut Run, c: &Case, tag: &str) {
     // implementation reply of the report request
     let active = report.get("active_manifest").and_then(|x| x.as_str()).unwrap_or("").to_string();
     let m = &report["manifests"][&active];
-    let reported: Vec<String> = m.get("assertions").and_then(|x| x.as_array()).map(|a| {
-        a.iter().map(|x| format!("{}#{}", x.get("label").and_then(|l| l.as_str()).unwrap_or("?"), x.get("instance").and_then(|i| i.as_u64()).unwrap_or(0))).collect()
-    }).unwrap_or_default();
-    let imp = format!("{} {}", if m.get("format").is_some() { "fmt" } else { "nofmt" }, if reported.is_empty() { "-".to_string() } else { reported.join(",") });
-    let idx = run.case(req, imp);
+    let idx = run.case(req, report_reply(m));
     // --- oracle ---
     let want = if c.trusted && c.signer != "ephemeral" { "Trusted" } else { "Valid" };
     if state != "Valid" && state != "Trusted" {
@@ -626,28 +730,50 @@ fn one_case(run: &mut Run, c: &Case, tag: &str) {
             run.fail(idx, "report-signature-alg-differs", format!("{key}: reported alg {ra}"));
         }
     }
-    // the store returned by sign is the one embedded
-    match c2pa::jumbf_io::load_jumbf_from_memory(c.fmt, &signed.asset) {
-        Ok(j) if j == signed.manifest => {}
-        Ok(j) => run.fail(idx, "returned-manifest-differs-from-embedded", format!("{key}: returned {} bytes, embedded {} bytes", signed.manifest.len(), j.len())),
-        Err(e) => run.fail(idx, "signed-asset-unreadable", format!("{key}: load_jumbf: {e:?}")),
+    // the store returned by sign is the one embedded (embedded modes) / nothing is embedded
+    match (detached, c2pa::jumbf_io::load_jumbf_from_memory(c.fmt, &signed.asset)) {
+        (false, Ok(j)) if j == signed.manifest => {}
+        (false, Ok(j)) => run.fail(idx, "returned-manifest-differs-from-embedded", format!("{key}: returned {} bytes, embedded {} bytes", signed.manifest.len(), j.len())),
+        (false, Err(e)) => run.fail(idx, "signed-asset-unreadable", format!("{key}: load_jumbf: {e:?}")),
+        (true, Ok(j)) => run.fail(idx, "detached-output-holds-a-store", format!("{key}: the output of a no-embed signing holds a {}-byte store", j.len())),
+        (true, Err(_)) => {}
     }
     if bad.is_empty() && (state == "Valid" || state == "Trusted") {
         run.nontrivial(key.clone());
     }
+    let data_hash_path = !c.box_hash && !is_bmff(c.fmt);
+    // --- validation codes read back (model: C03.readBack = C06 signature codes + hashed URIs + binding, C04 state) ---
+    // one hashed-URI check per stored assertion: thumbnail, ingredients, supplied assertions, hard binding
+    let n_uris = c.supplied.assertions.len() + c.supplied.ingredients.len() + usize::from(c.supplied.thumbnail.is_some()) + 1;
+    let trust_bit = if c.trusted && c.signer != "ephemeral" { 1 } else { 0 };
     // --- container-level correspondence (data-hash path) ---
-    if !c.box_hash && !is_bmff(c.fmt) {
+    if data_hash_path {
         let hashes = c2pa::verif_hooks::c03::active_data_hashes(&signed.manifest);
         let l0 = c2pa::verif_hooks::c07::object_locations(c.fmt, &mut Cursor::new(c.src.to_vec()));
         let l1 = c2pa::verif_hooks::c07::object_locations(c.fmt, &mut Cursor::new(signed.asset.clone()));
         if let (Ok((alg, hs)), Ok(l0), Ok(l1)) = (hashes, l0, l1) {
             if hs.len() == 1 {
                 let (dh, len) = &hs[0];
-                let req = format!("C03 flow alg={alg} src={} out={} locs0={} locs1={}", c.src.len(), signed.asset.len(), locs_str(&l0), locs_str(&l1));
+                // `additionalExclusionsPresent` is logged when the DataHash holds more than one exclusion
+                let extra = if dh.exclusions.as_ref().map(|e| e.len() > 1).unwrap_or(false) { 1 } else { 0 };
+                run.case(format!("C03 readback trust={trust_bit} sig=1 uris={n_uris} bind=match extra={extra}"), codes_reply(&state, &report));
+                run.count("readback-cases");
+                // EmbedRemote: the first pass runs on source + XMP reference, which is not observable from outside
+                let req = match c.mode {
+                    Mode::Embed => Some(format!("C03 flow alg={alg} src={} out={} locs0={} locs1={}", c.src.len(), signed.asset.len(), locs_str(&l0), locs_str(&l1))),
+                    // no-embed: the output is the intermediate stream; its locations are the first-pass ones
+                    Mode::Sidecar | Mode::Remote => Some(format!("C03 noembed alg={alg} len={} locs={}", signed.asset.len(), locs_str(&l1))),
+                    Mode::EmbedRemote => None,
+                };
                 let ex: Vec<String> = dh.exclusions.clone().unwrap_or_default().iter().map(|r| format!("{}:{}", r.start(), r.length())).collect();
                 let imp = format!("ok excl={} size={} pad={} pad2={}", if ex.is_empty() { "-".to_string() } else { ex.join(",") }, len, dh.pad.len(), dh.pad2.as_ref().map(|p| p.len().to_string()).unwrap_or("-".into()));
-                let fi = run.case(req, imp);
-                run.count("flow-cases");
+                let fi = match req {
+                    Some(req) => {
+                        run.count(if detached { "noembed-flow-cases" } else { "flow-cases" });
+                        run.case(req, imp)
+                    }
+                    None => idx,
+                };
                 // binding oracle, computed independently: digest of the bytes outside the exclusions
                 let mut ranges: Vec<(usize, usize)> = dh.exclusions.clone().unwrap_or_default().iter().map(|r| (r.start() as usize, r.length() as usize)).collect();
                 ranges.sort();
@@ -663,9 +789,38 @@ fn one_case(run: &mut Run, c: &Case, tag: &str) {
                 if sha(&alg, &parts) != dh.hash {
                     run.fail(fi, "binding-not-over-complement-of-exclusions", format!("{key}: stored hash is not the {alg} digest of the bytes outside {ranges:?}"));
                 }
+                if detached && ranges.iter().any(|(_, n)| *n > 0) {
+                    run.fail(fi, "detached-binding-has-exclusions", format!("{key}: a no-embed signing stored exclusions {ranges:?}"));
+                }
                 if let Some(want) = c.supplied.hash_alg {
                     if want != alg {
                         run.fail(fi, "hash-alg-not-used", format!("{key}: definition asked for {want}, claim uses {alg}"));
+                    }
+                }
+                // --- tampered copy: one byte outside the exclusions flipped ---
+                if c.tamper {
+                    let end = ranges.iter().map(|(s, n)| s + n).max().unwrap_or(0);
+                    let at = end + (signed.asset.len() - end) / 2;
+                    if at < signed.asset.len() && !ranges.iter().any(|(s, n)| at >= *s && at < s + n) {
+                        let mut t = signed.asset.clone();
+                        t[at] ^= 0x01;
+                        let (fmt2, manifest2, settings2) = (c.fmt.to_string(), signed.manifest.clone(), settings.clone());
+                        let rd = guarded(move || if detached { read_detached(&fmt2, &manifest2, &t, &settings2) } else { read(&fmt2, &t, &settings2) });
+                        match rd {
+                            Ok(Ok((tstate, treport, _))) => {
+                                let req = format!("C03 readback trust={trust_bit} sig=1 uris={n_uris} bind=mismatch extra={extra}");
+                                let ti = run.case(req, codes_reply(&tstate, &treport));
+                                run.count("tamper:reported");
+                                if tstate == "Valid" || tstate == "Trusted" {
+                                    run.fail(ti, "tampered-asset-reads-valid", format!("{key}: byte {at} flipped (outside {ranges:?}), state still {tstate}"));
+                                }
+                            }
+                            // the container parser may reject the flipped byte: the asset is not accepted, which is fine
+                            Ok(Err(_)) => run.count("tamper:rejected-by-parser"),
+                            Err(p) => {
+                                run.fail(idx, "panic", format!("{key}: panic while reading the tampered asset (byte {at}): {p}"));
+                            }
+                        }
                     }
                 }
             } else {
@@ -673,6 +828,77 @@ fn one_case(run: &mut Run, c: &Case, tag: &str) {
             }
         } else {
             run.notes.push(format!("{key}: flow probe unavailable"));
+        }
+    }
+}
+
+/// `n` (≥ 64) bytes that start like a C2PA manifest store: `jumb` superbox, `jumd` description
+/// box with the C2PA UUID and label, then one box of random bytes
+fn fake_store(r: &mut Rng, n: usize) -> Vec<u8> {
+    let n = n.max(64);
+    let mut v = Vec::with_capacity(n);
+    v.extend_from_slice(&(n as u32).to_be_bytes());
+    v.extend_from_slice(b"jumb");
+    v.extend_from_slice(&30u32.to_be_bytes());
+    v.extend_from_slice(b"jumd");
+    v.extend_from_slice(&[0x63, 0x32, 0x70, 0x61, 0x00, 0x11, 0x00, 0x10, 0x80, 0x00, 0x00, 0xaa, 0x00, 0x38, 0x9b, 0x71]);
+    v.push(0x03);
+    v.extend_from_slice(b"c2pa\0");
+    let rest = n - v.len();
+    v.extend_from_slice(&(rest as u32).to_be_bytes());
+    v.extend_from_slice(b"free");
+    v.extend_from_slice(&r.bytes(rest - 8));
+    v
+}
+
+/// The handler laws the Lean theorems assume (`C2pa.C03.Laws`), evaluated on the real
+/// `save_jumbf_to_stream` / `get_object_locations_from_stream` of a format: for two payloads of
+/// equal length, embedding the second over the first keeps the asset length, the reported
+/// locations and every byte outside the C2PA region; the region is non-empty, inside the asset,
+/// and the store read back is the second payload.
+fn handler_laws(run: &mut Run, fmt: &str, src: &[u8], j: &[u8], j2: &[u8]) {
+    // an implementation-side oracle only (no model request): failures are attached to the last case
+    let idx = run.reqs.len().saturating_sub(1);
+    let fmt_s = fmt.to_string();
+    let (src_v, jv, j2v) = (src.to_vec(), j.to_vec(), j2.to_vec());
+    let res = guarded(move || -> c2pa::Result<(Vec<u8>, Vec<u8>, Vec<(usize, usize, u8)>, Vec<(usize, usize, u8)>, Vec<u8>)> {
+        let out0 = c2pa::jumbf_io::save_jumbf_to_memory(&fmt_s, &src_v, &jv)?;
+        let out1 = c2pa::jumbf_io::save_jumbf_to_memory(&fmt_s, &out0, &j2v)?;
+        let l0 = c2pa::verif_hooks::c07::object_locations(&fmt_s, &mut Cursor::new(out0.clone()))?;
+        let l1 = c2pa::verif_hooks::c07::object_locations(&fmt_s, &mut Cursor::new(out1.clone()))?;
+        let back = c2pa::jumbf_io::load_jumbf_from_memory(&fmt_s, &out1)?;
+        Ok((out0, out1, l0, l1, back))
+    });
+    run.count("laws-cases");
+    match res {
+        Err(p) => {
+            run.fail(idx, "panic", format!("handler laws fmt={fmt}: {p}"));
+        }
+        Ok(Err(e)) => {
+            run.fail(idx, "handler-law-embed-failed", format!("fmt={fmt} n={}: {e:?}", j.len()));
+        }
+        Ok(Ok((out0, out1, l0, l1, back))) => {
+            let cai: Vec<(usize, usize)> = l0.iter().filter(|x| x.2 == 0).map(|x| (x.0, x.1)).collect();
+            let start = cai.iter().map(|x| x.0).min().unwrap_or(0);
+            let end = cai.iter().map(|x| x.0 + x.1).max().unwrap_or(0);
+            if cai.is_empty() || end <= start || end > out0.len() {
+                run.fail(idx, "handler-law-reported", format!("fmt={fmt}: C2PA region {cai:?} empty or outside the {}-byte asset", out0.len()));
+                return;
+            }
+            if out1.len() != out0.len() {
+                run.fail(idx, "handler-law-stable-length", format!("fmt={fmt}: {} bytes after the first embed, {} after the second (equal payload lengths)", out0.len(), out1.len()));
+                return;
+            }
+            if l0 != l1 {
+                run.fail(idx, "handler-law-stable-layout", format!("fmt={fmt}: locations {l0:?} then {l1:?}"));
+            }
+            if let Some(x) = (0..out0.len()).find(|x| (*x < start || *x >= end) && out0[*x] != out1[*x]) {
+                run.fail(idx, "handler-law-stable-bytes", format!("fmt={fmt}: byte {x} outside the region [{start},{end}) changed"));
+            }
+            if back != j2 {
+                run.fail(idx, "handler-law-replace", format!("fmt={fmt}: the store read back is not the second payload"));
+            }
+            run.nontrivial(format!("laws fmt={fmt} n={}", j.len()));
         }
     }
 }
@@ -690,7 +916,7 @@ pub fn run(run: &mut Run, rng: &mut Rng) {
         for (fmt, src) in &sources {
             let mut r = rng.fork();
             let supplied = gen_supplied(&mut r, fmt, thorough);
-            let c = Case { fmt, src, supplied, signer: signers[k % signers.len()], trusted: k % 2 == 0, box_hash: (k + round) % 5 == 4 };
+            let c = Case { fmt, src, supplied, signer: signers[k % signers.len()], trusted: k % 2 == 0, box_hash: (k + round) % 5 == 4, mode: Mode::Embed, tamper: true };
             one_case(run, &c, &format!("A{round}"));
             k += 1;
         }
@@ -702,7 +928,8 @@ pub fn run(run: &mut Run, rng: &mut Rng) {
         let mut r = rng.fork();
         let (fmt, src) = *r.pick(&small);
         let supplied = gen_supplied(&mut r, fmt, thorough);
-        let c = Case { fmt, src, supplied, signer: signers[r.below(signers.len() as u64) as usize], trusted: r.chance(1, 2), box_hash: r.chance(1, 6) };
+        let mode = match r.below(8) { 0 => Mode::Sidecar, 1 => Mode::Remote, 2 => Mode::EmbedRemote, _ => Mode::Embed };
+        let c = Case { fmt, src, supplied, signer: signers[r.below(signers.len() as u64) as usize], trusted: r.chance(1, 2), box_hash: mode == Mode::Embed && r.chance(1, 6), mode, tamper: r.chance(1, 6) };
         one_case(run, &c, &format!("B{i}"));
     }
     // C: signer × hash alg matrix on one small format
@@ -715,7 +942,7 @@ pub fn run(run: &mut Run, rng: &mut Rng) {
                 let mut r = rng.fork();
                 let mut supplied = gen_supplied(&mut r, fmt, false);
                 supplied.hash_alg = h;
-                let c = Case { fmt, src, supplied, signer: s, trusted: true, box_hash: false };
+                let c = Case { fmt, src, supplied, signer: s, trusted: true, box_hash: false, mode: Mode::Embed, tamper: false };
                 one_case(run, &c, "C");
             }
         }
@@ -728,15 +955,14 @@ pub fn run(run: &mut Run, rng: &mut Rng) {
             supplied.assertions.truncate(1);
             supplied.assertions.push(("org.verif.u64".to_string(), json!({"big": u64::MAX, "edge": (i64::MAX as u64) + 1}), kind));
             let (s2, src2) = (supplied.clone(), src.to_vec());
-            let res = guarded(move || sign(&s2, &src2, "ephemeral", &base_settings()));
-            let req = format!("C03 report v={} labels={}", supplied.claim_version, supplied.assertions.iter().map(|(l, _, _)| l.as_str()).collect::<Vec<_>>().join(","));
+            let res = guarded(move || sign(&s2, &src2, "ephemeral", &base_settings(), Mode::Embed));
+            let req = report_req(&supplied);
             match res {
                 Ok(Ok(signed)) => match read(fmt, &signed.asset, &base_settings()) {
                     Ok((_, report, reader)) => {
                         let active = report.get("active_manifest").and_then(|x| x.as_str()).unwrap_or("").to_string();
                         let m = &report["manifests"][&active];
-                        let reported: Vec<String> = m.get("assertions").and_then(|x| x.as_array()).map(|a| a.iter().map(|x| format!("{}#{}", x.get("label").and_then(|l| l.as_str()).unwrap_or("?"), x.get("instance").and_then(|i| i.as_u64()).unwrap_or(0))).collect()).unwrap_or_default();
-                        let idx = run.case(req, format!("{} {}", if m.get("format").is_some() { "fmt" } else { "nofmt" }, reported.join(",")));
+                        let idx = run.case(req, report_reply(m));
                         for (class, detail) in compare_report(&supplied, &report, &reader) {
                             run.fail(idx, class, format!("D kind={kind}: {detail}"));
                         }
@@ -761,6 +987,39 @@ pub fn run(run: &mut Run, rng: &mut Rng) {
             }
         }
     }
+    // E: every format in the three detached / remote modes (once; thorough: with two signers)
+    for (k, (fmt, src)) in sources.iter().enumerate() {
+        for (mi, mode) in [Mode::Sidecar, Mode::Remote, Mode::EmbedRemote].into_iter().enumerate() {
+            if !thorough && src.len() > 300_000 && mode != Mode::Sidecar {
+                continue;
+            }
+            let mut r = rng.fork();
+            let supplied = gen_supplied(&mut r, fmt, false);
+            let c = Case { fmt, src, supplied, signer: signers[(k + mi) % signers.len()], trusted: (k + mi) % 2 == 0, box_hash: false, mode, tamper: mode != Mode::EmbedRemote };
+            one_case(run, &c, &format!("E{mi}"));
+        }
+    }
+    // F: the handler laws the theorems assume, on the real handlers of the data-hash formats
+    let mut law_formats = 0;
+    for (fmt, src) in &sources {
+        if is_bmff(fmt) {
+            continue;
+        }
+        law_formats += 1;
+        let sizes: Vec<usize> = if thorough { vec![64, 255, 256, 1000, 20_000, 65_000, 65_519, 65_520, 65_535, 70_000, 200_000] } else if src.len() > 300_000 { vec![1000] } else { vec![64, 1000, 65_520, 70_000] };
+        for n in sizes {
+            let mut r = rng.fork();
+            // payloads with the head of a C2PA JUMBF superbox (the JPEG writer looks for it), random body; equal lengths
+            let j = fake_store(&mut r, n);
+            let mut j2 = fake_store(&mut r, n);
+            if j2 == j {
+                let last = j2.len() - 1;
+                j2[last] ^= 0xff;
+            }
+            handler_laws(run, fmt, src, &j, &j2);
+        }
+    }
+    run.obligations.insert("handler-laws-checked-on-every-data-hash-format".to_string(), law_formats >= 8);
     run.obligations.insert("every-writable-format-signed".to_string(), sources.len() >= 10);
     run.notes.push("claim v2 has no dc:format in its CDDL (claim.rs serialize_v2), so `format` is compared for v1 claims and, for v2, only when the reader reports one".to_string());
     run.notes.push(format!("formats exercised: {}", sources.iter().map(|(f, d)| format!("{f}({}B)", d.len())).collect::<Vec<_>>().join(" ")));
